@@ -340,6 +340,8 @@ def run(ctx):
     shared.naming_rule(ctx, "C04.R5")
     picklelib_rule(ctx, "C04.R6")
     replayable_rule(ctx, "C04.R7")
+    from . import c11
+    c11.publication_rule(ctx, "C04.R8", title="crop files (settings, function, batches, results) are published by write-temporary, close, rename: no process ever loads a partly written file")
     prog = ctx.prog
     crop = prog.need_cls(CROP + ".Crop")
     sl = [crop.methods[n] for n in ("__init__", "sow_combos", "sow_cases", "sow_samples", "prepare", "save_info", "load_info", "_sync_info_from_disk", "save_function_to_disk",
